@@ -53,7 +53,10 @@ func compileCase(c *Case, optimize bool) (code []goatlang.VerifInstr, slots int,
 		}
 	}()
 	if c.Src != "" {
-		return goatlang.VerifCompileEval(goatlang.New(), goat.FS(nil), "eval.go", c.Src, nil)
+		// compiling an Eval input runs its imported script packages first: bound that run like every other
+		goatlang.VerifSetBudget(2_000_000)
+		defer goatlang.VerifSetBudget(-1)
+		return goatlang.VerifCompileEval(goatlang.New(), goat.FS(c.Files), "eval.go", c.Src, nil)
 	}
 	p := &oracle.Program{Files: c.Files}
 	files := map[string]string{}
@@ -76,6 +79,10 @@ func verify(c *Case, allowResidual bool) *ev.Failure {
 	r.Eval(1)
 	for _, opt := range []bool{true, false} {
 		code, slots, err := compileCase(c, opt)
+		if err != nil && strings.Contains(err.Error(), goatlang.VerifBudgetMsg) {
+			r.Class("discarded:budget")
+			return nil
+		}
 		if err != nil {
 			r.Class("not_compiled")
 			r.Note("a generated program did not compile: %v", err)
@@ -308,6 +315,36 @@ func genStmtProgram(rt *rapid.T) *Case {
 	return &Case{Src: g.sb.String()}
 }
 
+// genStmtPackages: the same statement programs spread over packages. One to three script packages hold statements
+// at package level (the script dialect allows that) and are imported, directly or through one another, by the
+// evaluated source, which has statements of its own: all of it runs in one top-level frame.
+func genStmtPackages(rt *rapid.T) *Case {
+	c := &Case{Files: map[string]string{}}
+	n := rx.Range(rt, "nlibs", 1, 3)
+	for i := 0; i < n; i++ {
+		g := &stmtGen{rt: rt, budget: rx.Range(rt, "libbudget", 1, 14)}
+		fmt.Fprintf(&g.sb, "package lib%d\n", i)
+		if i+1 < n && rapid.Bool().Draw(rt, "chain") {
+			fmt.Fprintf(&g.sb, "import \"lib%d\"\n", i+1)
+		}
+		g.sb.WriteString(stmtHeader)
+		g.stmts(12, false, false)
+		c.Files[fmt.Sprintf("lib%d/a.go", i)] = g.sb.String()
+	}
+	g := &stmtGen{rt: rt, budget: rx.Range(rt, "budget", 0, 12)}
+	for i := 0; i < n; i++ {
+		if i == 0 || rapid.Bool().Draw(rt, "importdirect") {
+			fmt.Fprintf(&g.sb, "import \"lib%d\"\n", i)
+		}
+	}
+	g.sb.WriteString(stmtHeader)
+	if g.budget > 0 {
+		g.stmts(12, false, false)
+	}
+	c.Src = g.sb.String()
+	return c
+}
+
 func checkStmtProgram(c *Case) *ev.Failure {
 	if f := verify(c, false); f != nil {
 		return f
@@ -315,7 +352,7 @@ func checkStmtProgram(c *Case) *ev.Failure {
 	// dynamic: no residual values, no error, in both modes
 	for _, opt := range []bool{true, false} {
 		goat.SetOptimize(opt)
-		r := goat.New().Eval(nil, c.Src, 2_000_000)
+		r := goat.New().Eval(goat.FS(c.Files), c.Src, 2_000_000)
 		goat.SetOptimize(true)
 		if r.Budget {
 			ev.R().Class("discarded:budget")
@@ -334,10 +371,16 @@ func checkStmtProgram(c *Case) *ev.Failure {
 func TestStatements(t *testing.T) {
 	n := 0
 	ev.R().RapidCheck(t, func(rt *rapid.T) *ev.Failure {
-		c := genStmtProgram(rt)
+		var c *Case
+		if rx.Chance(rt, "packages", 1, 4) {
+			c = genStmtPackages(rt)
+			ev.R().Class("statements_spread_over_imported_packages")
+		} else {
+			c = genStmtProgram(rt)
+		}
 		n++
 		if n%300 == 1 {
-			ev.R().Sample(map[string]any{"source": c.Src})
+			ev.R().Sample(map[string]any{"source": c.Src, "files": c.Files})
 		}
 		return checkStmtProgram(c)
 	})
